@@ -34,6 +34,9 @@ RULES = {
     'C09.d': 'credentials are not carried over: a transport that accepts requests in a loop creates a fresh Client inside that '
              'loop; has_permission reads the permission list from Database.map on every call',
     'C09.g': 'permission patterns are matched by the selector table x* -> prefix, *x -> suffix, otherwise contains (C01.c pattern-table): a wider matcher widens every grant',
+    'C09.h': 'a refusal tells the client nothing it could not read: where a transport or handler takes a Response::VersionError apart, '
+             'no text it builds in that arm takes the stored entry (`old_value`) or the refused change as an argument — a write needs only '
+             '`w`, so the reply to a refused set-safe would hand the stored value to a user whose list has no `r`',
 }
 
 ADMIN = {'CreateDb', 'Snapshot', 'CreateUser', 'SetPermissions', 'Join', 'Leave', 'SetPrimary', 'SetScoundary',
@@ -79,6 +82,7 @@ def run(ck, m):
     _run(ck, m)
     framing_rule(ck, m)
     permission_parser_rule(ck, m)
+    refusal_reply_rule(ck, m)
     # a grant `prefix*` / `*suffix` is matched by the same selector and matchers the key listing uses: their table is C01.c's, its
     # verdict is repeated here because a matcher that accepts more (a key shorter than the prefix) widens every grant
     from nl import report
@@ -736,3 +740,64 @@ def permission_parser_rule(ck, m):
                           'the permission parser injects the literal pattern(s) %s: a statement without patterns — which is also what a removed '
                           'permission list (tombstone text) parses to — grants access to every key' % sorted(lits), '%s:%s' % (b.file, b.line))
     ck.floor('C09.f', n, 1, 'permission statement parsers')
+
+
+
+def refusal_reply_rule(ck, m):
+    """C09.h — see RULES"""
+    P = m.prog
+    n = 0
+    from props.C02 import resolver_fn
+    rid = resolver_fn(m).id
+    for b in P.user_bodies():
+        if b.id.startswith(('nundb::client::', 'nundb::command_line::')):
+            continue
+        if b.id == rid or b.id.startswith(rid + '::'):
+            continue        # the resolver hands the conflict (both values) to the arbiter and into the conflict record by design (C13.a)
+        # switches over a Response value with a VersionError arm of its own
+        arms = []
+        for bi in b.reachable():
+            t_ = b.term(bi)
+            if t_['k'] != 'switch':
+                continue
+            o = t_['o']
+            pl = o.get('c') or o.get('m')
+            if not pl or pl.get('p'):
+                continue
+            for (dbi, dsi, kind, rv) in b.defs().get(pl['l'], []):
+                if kind == 'assign' and rv['k'] == 'discr' and rv.get('adt', '').endswith('bo::Response'):
+                    a = P.adts.get(rv['adt']) or {}
+                    for v in a.get('variants', []):
+                        if v['name'] == 'VersionError':
+                            tg = [tb for val, tb in t_['targets'] if str(val) == str(v['discr'])]
+                            if tg and tg[0] != t_['else']:
+                                arms.append((bi, tg[0]))
+        for sbi, tgt in arms:
+            others = [x for x in b.succ(sbi) if x != tgt]
+            region = {x for x in b.reach_from([tgt], include_start=True) if b.dominates(tgt, x) and not any(b.dominates(o_, x) for o_ in others)}
+            n += 1
+            leaks = []
+            for bi, f in core.string_builders(b):
+                if bi not in region:
+                    continue
+                # logging is not a reply
+                for pc in f.pieces:
+                    if pc[0] != 'arg' or pc[1] is None:
+                        continue
+                    for r in origins(b, pc[1]):
+                        flds = [q[2] for q in (r[-1] or ()) if q and q[0] == 'f']
+                        names = [q for q in flds if q in ('old_value', 'change')]
+                        if names:
+                            leaks.append((names[0], b.loc(bi), bi))
+            # keep only templates that are sent or returned, not logged
+            real = []
+            for nm, loc, bi in leaks:
+                users = [x for x, t2 in b.calls() if any(r_[0] == 'call' and r_[1] == bi for a in t2['args'] for r_ in origins(b, a, stop_at_calls=True))]
+                if not users or not all(is_log(b.term(x)) for x in users):
+                    real.append((nm, loc))
+            ck.ob('C09.h', short(b.id), 'version-error-arm-keeps-the-entry-private', not real,
+                  'the VersionError arm builds its reply without the stored entry' if not real else
+                  'the VersionError arm puts %s into a text it builds (%s): the reply to a refused set-safe carries the stored value; set / set-safe '
+                  'need only `w`, so a user whose list grants no `r` on the key reads it by sending a set-safe with an old version'
+                  % (sorted({x[0] for x in real}), sorted({x[1] for x in real})), real[0][1] if real else b.loc(tgt))
+    ck.floor('C09.h', n, 3, 'places that take a Response::VersionError apart')
